@@ -8,18 +8,58 @@ use crate::generate::{self, Doc, DocOpts, Lit, Style};
 use crate::pos;
 use crate::rng::Rng;
 
-/// formatting answer for a document held in DOC_REL (on disk or as open buffer)
-fn format_doc(project: &Project, text: &str, via_open: bool) -> Result<Value, String> {
-    if via_open {
-        project.reset(&generate::schema_text(0), &[(DOC_REL.to_string(), "// stub on disk\n".to_string())]);
-    } else {
-        project.reset(&generate::schema_text(0), &[(DOC_REL.to_string(), text.to_string())]);
+const SLOTS: usize = 16;
+
+fn slot_rel(i: usize) -> String {
+    format!("src/S{i}.tsx")
+}
+
+fn stub_files(doc_on_disk: Option<&str>) -> Vec<(String, String)> {
+    let mut v: Vec<(String, String)> = (0..SLOTS).map(|i| (slot_rel(i), "// stub on disk\n".to_string())).collect();
+    v.push((DOC_REL.to_string(), doc_on_disk.unwrap_or("// stub on disk\n").to_string()));
+    v
+}
+
+/// One server serves up to SLOTS documents, each in its own file that is opened
+/// exactly once (so no answer depends on the server forgetting earlier text).
+pub struct FmtServer<'p> {
+    project: &'p Project,
+    server: Option<crate::drive::Server>,
+    next: usize,
+}
+
+impl<'p> FmtServer<'p> {
+    pub fn new(project: &'p Project) -> FmtServer<'p> {
+        FmtServer { project, server: None, next: 0 }
     }
-    let mut s = project.server()?;
-    if via_open {
-        s.did_open(DOC_REL, text)?;
+    /// formatting answer for `text` held in an open buffer
+    fn format_open(&mut self, text: &str) -> Result<Value, String> {
+        if self.server.is_none() || self.next >= SLOTS {
+            self.project.reset(&generate::schema_text(0), &stub_files(None));
+            self.server = Some(self.project.server()?);
+            self.next = 0;
+        }
+        let rel = slot_rel(self.next);
+        self.next += 1;
+        let s = self.server.as_mut().unwrap();
+        s.did_open(&rel, text)?;
+        let v = s.formatting(&rel);
+        if v.get("panic").is_some() {
+            self.server = None; // state after a panic is not to be trusted
+        }
+        Ok(v)
     }
-    Ok(s.formatting(DOC_REL))
+    /// formatting answer for `text` read from disk by a fresh server
+    fn format_disk(&mut self, text: &str) -> Result<Value, String> {
+        self.server = None;
+        self.project.reset(&generate::schema_text(0), &stub_files(Some(text)));
+        let mut s = self.project.server()?;
+        Ok(s.formatting(DOC_REL))
+    }
+}
+
+fn format_doc(fs: &mut FmtServer, text: &str, via_open: bool) -> Result<Value, String> {
+    if via_open { fs.format_open(text) } else { fs.format_disk(text) }
 }
 
 #[derive(Debug, Clone, PartialEq, Eq)]
@@ -30,7 +70,7 @@ enum LitVerdict {
 }
 
 /// All per-literal rules for one literal standing alone in a minimal document.
-fn check_single(project: &Project, lit_text: &str, export: Option<&str>, called: bool) -> LitVerdict {
+fn check_single(project: &mut FmtServer, lit_text: &str, export: Option<&str>, called: bool) -> LitVerdict {
     let head = match export {
         Some(n) => format!("export const {n} = iso(`"),
         None => "const e = iso(`".to_string(),
@@ -128,7 +168,7 @@ fn skeleton(text: &str) -> String {
 
 /// Shrink predicate for the edit-range rule: the server returns at least one edit
 /// and applying its edits changes text outside the literals (or cannot be applied).
-fn edit_range_fires(project: &Project, text: &str) -> bool {
+fn edit_range_fires(project: &mut FmtServer, text: &str) -> bool {
     if text.matches('`').count() % 2 != 0 || !text.contains("iso(`") {
         return false;
     }
@@ -174,7 +214,8 @@ pub fn run(args: &Args) -> Value {
     let work = std::path::PathBuf::from(args.str("work", "/var/tmp/vf-scratch/lsp"));
     let want_samples = args.u64("samples", 0);
     let no_shrink = args.flag("no-shrink");
-    let project = Project::new(&work, "fmt");
+    let project_dir = Project::new(&work, "fmt");
+    let mut project = FmtServer::new(&project_dir);
     let mut rep = Report::default();
     let mut shapes = std::collections::BTreeSet::new();
 
@@ -199,7 +240,7 @@ pub fn run(args: &Args) -> Value {
         // (1) per-literal rules, each literal alone (so that one literal's defect cannot hide another's)
         let mut accepted = vec![];
         for (i, l) in lits.iter().enumerate() {
-            let v = check_single(&project, &l.text, l.export_name.as_deref(), l.called);
+            let v = check_single(&mut project, &l.text, l.export_name.as_deref(), l.called);
             match &v {
                 LitVerdict::NotAccepted => {
                     rep.count("literals_rejected_by_parser", 1);
@@ -220,9 +261,9 @@ pub fn run(args: &Args) -> Value {
                     let shrunk = if no_shrink {
                         l.text.clone()
                     } else {
-                        shrink_text(&l.text, |cand| matches!(check_single(&project, cand, l.export_name.as_deref(), l.called), LitVerdict::Violation(r, _) if r == rule))
+                        shrink_text(&l.text, |cand| matches!(check_single(&mut project, cand, l.export_name.as_deref(), l.called), LitVerdict::Violation(r, _) if r == rule))
                     };
-                    let detail2 = match check_single(&project, &shrunk, l.export_name.as_deref(), l.called) {
+                    let detail2 = match check_single(&mut project, &shrunk, l.export_name.as_deref(), l.called) {
                         LitVerdict::Violation(_, d) => d,
                         _ => detail.clone(),
                     };
@@ -239,7 +280,7 @@ pub fn run(args: &Args) -> Value {
 
         // (2) whole document: edits replace exactly the literals (alternating disk / open buffer)
         let via_open = case % 2 == 1;
-        match format_doc(&project, &doc.text, via_open) {
+        match format_doc(&mut project, &doc.text, via_open) {
             Err(e) => rep.harness_errors.push(format!("case {case}: {e}")),
             Ok(resp) => {
                 if resp.get("panic").is_some() || resp.get("error").is_some() {
@@ -257,8 +298,8 @@ pub fn run(args: &Args) -> Value {
                                 rep.count("documents_with_non_ascii", 1);
                             }
                             if let Err(why) = check_edit_ranges(&doc, &accepted, &edits) {
-                                let shrinkable = !no_shrink && edit_range_fires(&project, &doc.text);
-                                let shrunk = if shrinkable { shrink_text(&doc.text, |cand| edit_range_fires(&project, cand)) } else { doc.text.clone() };
+                                let shrinkable = !no_shrink && edit_range_fires(&mut project, &doc.text);
+                                let shrunk = if shrinkable { shrink_text(&doc.text, |cand| edit_range_fires(&mut project, cand)) } else { doc.text.clone() };
                                 let first_lit = shrunk.find("iso(`").map(|i| i + 5).unwrap_or(0);
                                 let last_lit_end = shrunk.rfind('`').unwrap_or(shrunk.len());
                                 let class = if !shrinkable {
